@@ -61,8 +61,8 @@ Definition ex_ops : list op :=
    EndBlock; EndBlock; EndBlock; EndBlock; EndBlock; EndBlock; Withdraw "s1" "a1" 100].
 Example ex_hist_ok : hist_ok (empty_st 1 ["o1"] ["o1"] ["a1"]) ex_ops = true.
 Proof. vm_compute. reflexivity. Qed.
-(* ghost log of the example: [GWdr 100; GDep 40; GSl 65; GDep 500; GDep 1000] *)
-Example ex_value : value "a1" (run ex_ops (empty_st 1 ["o1"] ["o1"] ["a1"])) = 1375.
+(* ghost log of the example: [GWdr 100; GDep 40; GSl 65 (pool); GSl 25 (the undelegation started in the infraction block); GDep 500; GDep 1000] *)
+Example ex_value : value "a1" (run ex_ops (empty_st 1 ["o1"] ["o1"] ["a1"])) = 1350.
 Proof. vm_compute. reflexivity. Qed.
 Example ex_empty_inv : idx_inv (empty_st 1 ["o1"] ["o1"] ["a1"]) /\ nn (empty_st 1 ["o1"] ["o1"] ["a1"]).
 Proof. split; [apply empty_idx_inv; discriminate | apply empty_nn]. Qed.
